@@ -61,4 +61,6 @@ f8434c2 C13
 02ce248 C16
 51e4f90 C13
 75a507b C12
+001f011 C03 C04
+a3420f3 C17
 LIST
